@@ -31,7 +31,7 @@ RULE = ('one bucket per conversion pair; cases = plain-data descriptors (coeffic
         'exhaustively each run (one bucket per N, counts in pivot_vectors_enumerated), random vectors for N <= 10 and '
         'scipy.linalg.lu_factor outputs of generated matrices (well conditioned, pivot forcing, integer with ties, '
         'singular).  Non-trivial: conversions with coefficient rank >= 2 or P >= 2 (containers: rank-2 container or '
-        'non-scalar elements); pivots with N >= 3 and a non-identity permutation; distinct by descriptor hash'
+        'non-scalar elements or P >= 2); pivots with N >= 3 and a non-identity permutation; distinct by descriptor hash'
         % PIV_NMAX)
 
 ASSUMPTIONS = [
@@ -499,7 +499,7 @@ def container_cases(draw, which):
 
 
 def _nt_cont(case):
-    return len(case['cshape']) >= 2 or case['data'].ndim - 2 - len(case['cshape']) >= 1
+    return len(case['cshape']) >= 2 or case['data'].ndim - 2 - len(case['cshape']) >= 1 or case['data'].shape[1] >= 2
 
 
 def _cl_cont(case):
